@@ -145,7 +145,7 @@ def views(ctx):
         return out
     seq = ctx.seq
     k = ctx.op[0]
-    if any(not c.slots for c in ctx.post.channels.values()):
+    if all(not c.slots for c in ctx.post.channels.values()):
         return out
     # view 2: str(seq)
     try:
@@ -174,6 +174,8 @@ def views(ctx):
         ss = sample(seq)
     except Exception as e:
         return out + [(f"C02:sample-raises:{k}:{type(e).__name__}", repr(e))]
+    if list(ss.channel_samples) != list(ctx.post.channels):
+        return out + [(f"C02:sampled-channels-differ-from-declared:{k}", f"declared {list(ctx.post.channels)}, sampled {list(ss.channel_samples)}")]
     for name, ch in ctx.post.channels.items():
         cs = ss.channel_samples[name]
         if not (len(cs.amp) == len(cs.det) == len(cs.phase) == ch.end):
@@ -185,3 +187,55 @@ def views(ctx):
     if ss.max_duration != max(c.end for c in ctx.post.channels.values()):
         out.append((f"C02:sample-duration:{k}", f"{ss.max_duration}"))
     return out
+
+
+# ---- an independent lower bound for the fall time of a scheduled pulse -----------------------------------------------
+_PF_CACHE: dict = {}
+
+
+def _ref_tail_profile(x, bw, rise):
+    """max |y(t)| over t >= T for the non-circular Gaussian low-pass y of x (documented filter), T counted from the end of
+    the input in TRUE time; returned as an array indexed by T + rise (so index 0 is one rise time before the end)."""
+    import math
+
+    import numpy as np
+
+    fc = bw * 1e-3 / math.sqrt(math.log(2))
+    half = int(6 / (math.pi * fc)) + 2
+    tt = np.arange(-half, half + 1)
+    h = fc * math.sqrt(math.pi) * np.exp(-((math.pi * fc * tt) ** 2))
+    h = h / h.sum()
+    pad = 6 * rise + 50
+    xp = np.concatenate([np.zeros(pad + half), x, np.zeros(pad + half)])
+    y = np.abs(np.convolve(xp, h, mode="same"))[half: len(xp) - half]  # y[i] at true time i - pad
+    tail = y[pad + len(x) - rise:]
+    return np.maximum.accumulate(tail[::-1])[::-1]
+
+
+def physical_fall(slot, bw: float) -> int:
+    """Least F such that, F ns after the end of the slot's pulse (sequence time: the modulated output is taken to lag the
+    input by one rise time), neither the amplitude nor the detuning output of the documented Gaussian filter exceeds
+    max(0.01, 0.6 % of the waveform's peak).  Computed from the scheduled samples only - the library's Pulse.fall_time,
+    modulation_buffers and modulate are not consulted.  The bound is looser than the library's own trimming criterion, so
+    on a correct implementation Pulse.fall_time >= physical_fall (decided for all waveform shapes of C14's grid)."""
+    import numpy as np
+
+    if not bw or slot.pulse is None:
+        return 0
+    rise = int(0.48 / bw * 1e3)
+    F = 0
+    for x in (slot.pulse.amp, slot.pulse.det):
+        key = (x.tobytes(), bw)
+        if key not in _PF_CACHE:
+            peak = float(np.max(np.abs(x))) if len(x) else 0.0
+            if peak == 0.0:
+                _PF_CACHE[key] = 0
+            else:
+                prof = _ref_tail_profile(x, bw, rise)
+                bound = max(0.01, 0.006 * peak)
+                over = np.nonzero(prof >= bound)[0]
+                _PF_CACHE[key] = int(over[-1]) + 1 if len(over) else 0  # first index at which the remaining tail is below the bound
+            if len(_PF_CACHE) > 4000:
+                _PF_CACHE.clear()
+        F = max(F, _PF_CACHE.get(key, 0))
+    return F
